@@ -31,6 +31,8 @@ MSG_DEFAULT = {
     "body": "gated",  # gated | immediate
     "unwind": None,  # 'gated': on cancellation the body awaits a gate before it finishes (slow clean-up)
     "labels": {},
+    "ack_fails": None,  # None | 'raise' | 'cancel' | 'timeout': the ack callable fails (after its gate, if gated)
+    "exc_shared": False,  # raise one exception *object* shared by all messages of the world
 }
 
 EXC_TABLE: Dict[str, Any] = {}
@@ -71,6 +73,16 @@ def msg_spec(**kw: Any) -> Dict[str, Any]:
     d = dict(MSG_DEFAULT)
     d.update(kw)
     return d
+
+
+def fault_exc(kind: Any, what: str) -> BaseException:
+    """Exception object for an injected fault: True/'raise' -> RuntimeError, 'cancel' -> CancelledError
+    (e.g. an awaited connection future that was cancelled), 'timeout' -> TimeoutError."""
+    if kind == "cancel":
+        return asyncio.CancelledError(what)
+    if kind == "timeout":
+        return TimeoutError(what)
+    return RuntimeError(what)
 
 
 def _tick() -> None:
@@ -320,9 +332,12 @@ class RecvWorld(World):
                 world.emit("SAVE_B", i, world.res_summary(result))
                 if "save" in world.msgs[i]["gates"]:
                     await world.gate(("save", i))
-                if world.msgs[i]["save_fails"]:
+                sf = world.msgs[i]["save_fails"]
+                if sf == "once":
+                    sf = True if sum(1 for (k, _) in world.saved if k == i) == 1 else False
+                if sf:
                     world.emit("SAVE_F", i)
-                    raise RuntimeError("result backend is down")
+                    raise fault_exc(sf, "result backend is down")
                 world.results[task_id] = result
                 world.emit("SAVE_E", i)
 
@@ -404,6 +419,15 @@ class RecvWorld(World):
         self.finish_event = asyncio.Event()
         self.listen_task = self.loop.create_task(self.receiver.listen(self.finish_event))
 
+    _shared_exc: Any = None
+
+    def relaxed(self, i: int) -> bool:
+        """Fault-overlap scenarios (mc/fault_overlap.py): message X suffers a fault that lies outside the
+        alphabet the property under check quantifies over (sc['relax_x']). X's own completeness
+        obligations are then not demanded - its safety obligations, every obligation about the other
+        message and every global one are."""
+        return bool(self.sc.get("relax_x")) and self.sc.get("x") == i
+
     def task_name_for(self, i: int) -> str:
         if self.msgs[i].get("task_kind") == "annot":
             return "t_annot"
@@ -417,6 +441,11 @@ class RecvWorld(World):
             return m["value"]
         if o == "raise":
             self.emit("END", i, "raise:" + m["exc"])
+            if m.get("exc_shared"):
+                # e.g. two waiters of one failed future: both executions raise the very same object
+                if self._shared_exc is None:
+                    self._shared_exc = _exc_table()[m["exc"]]("boom", "shared")
+                raise self._shared_exc
             raise _exc_table()[m["exc"]]("boom", i)
         if o == "noresult":
             self.emit("END", i, "noresult")
@@ -471,11 +500,12 @@ class RecvWorld(World):
             for hook, mode in spec.get("hooks", {}).items():
                 methods[hook] = self._mk_hook(
                     hook, evname[hook], mode, mi, spec.get("fail", {}).get(hook, ()), bool(spec.get("replace")),
+                    spec.get("fail_exc"),
                 )
             cls = type(f"RecMW{mi}", (TaskiqMiddleware,), methods)
             broker.add_middlewares(cls())
 
-    def _mk_hook(self, hook: str, ev: str, mode: str, mi: int, fail: Any, replace: bool = False) -> Any:
+    def _mk_hook(self, hook: str, ev: str, mode: str, mi: int, fail: Any, replace: bool = False, fail_exc: Any = None) -> Any:
         world = self
 
         def marks(message: Any) -> Any:
@@ -483,7 +513,7 @@ class RecvWorld(World):
 
         def done(message: Any) -> Any:
             if fail == "all" or world.idx_of(message.task_id) in fail:
-                raise RuntimeError(f"hook {hook} of middleware {mi} fails")
+                raise fault_exc(fail_exc, f"hook {hook} of middleware {mi} fails")
             if hook != "pre_execute":
                 return None
             if replace:
@@ -520,15 +550,22 @@ class RecvWorld(World):
 
     def _make_ack(self, i: int, mode: str) -> Any:
         world = self
+        fails = self.msgs[i].get("ack_fails")
         if mode == "sync":
             def ack() -> None:
                 world.emit("ACK_B", i)
+                if fails:
+                    world.emit("ACK_F", i)
+                    raise fault_exc(fails, "ack failed")
                 world.emit("ACK_E", i)
         else:
             async def ack_coro() -> None:
                 world.emit("ACK_B", i)
                 if "ack" in world.msgs[i]["gates"]:
                     await world.gate(("ack", i))
+                if fails:
+                    world.emit("ACK_F", i)
+                    raise fault_exc(fails, "ack failed")
                 world.emit("ACK_E", i)
 
             if mode == "future":
@@ -670,7 +707,7 @@ class RecvWorld(World):
         out = []
         for i, log in self.per.items():
             kinds = [e[0] for e in log]
-            if kinds.count("ACK_B") > kinds.count("ACK_E"):
+            if kinds.count("ACK_B") > kinds.count("ACK_E") + kinds.count("ACK_F"):
                 out.append(i)
         return out
 
@@ -703,6 +740,16 @@ class RecvWorld(World):
             if self.msgs[k]["kind"] == "valid" and k not in self.started and not self.sc.get("mws") and k not in getattr(self, "_nx_flagged", set()):
                 self.__dict__.setdefault("_nx_flagged", set()).add(k)
                 self.flag("C01:processed-without-execution", f"processing of message {k} ended but its task function was never invoked: {self.per[k]}")
+        if self.ret and self.W is None:
+            # listen() has returned (the worker process goes on to shut down) although a taken message
+            # is still waiting, inside its processing, for its function to be invoked
+            for k in self.cb_open:
+                if self.msgs[k]["kind"] == "valid" and k not in self.started and not self.relaxed(k) and k not in getattr(self, "_rb_flagged", set()):
+                    self.__dict__.setdefault("_rb_flagged", set()).add(k)
+                    self.flag(
+                        "C01:dropped" + self.drop_context(),
+                        f"listen() returned while message {k} was still waiting to be executed (taken={self.taken}, started={self.started}): {self.per[k]}",
+                    )
         if not self.cb_open:
             for k in self.taken:
                 if self.msgs[k]["kind"] == "valid" and k not in self.started and k not in self.cb_done:
